@@ -218,7 +218,10 @@ class Merger(object):
         x_offset = 0.
         for array in channel_positions_l:
             array[:, 0] += x_offset
-            x_offset = 2. * array[:, 0].max() - array[:, 0].min()
+            # Leave a gap as wide as the probe, and never less than 1 (a single-column probe has
+            # zero width), so that channels of different probes never coincide.
+            x_max, x_min = array[:, 0].max(), array[:, 0].min()
+            x_offset = x_max + max(x_max - x_min, 1.)
         channel_positions = _concat(channel_positions_l, axis=0)
         self._save('channel_positions.npy', channel_positions)
 
